@@ -125,6 +125,14 @@ def handle (op : String) (args : List String) (impl : String) : Option Verdict :
       | some s => s!"sess:{repr s.role}:{repr s.out}:n={min sess.length 3}"
       | none => "sess:empty"
     return ⟨m, ok, tag⟩
+  | "rerun", [_kind, n] => some <| Id.run do
+    let some n := n.toNat? | return bad
+    let r := rerun ⟨[], [], [], 0⟩ "a" n
+    let m := s!"sub={r.next},unsub={r.next},live={r.live.length}"
+    let ok := match parseKV impl with
+      | some [("sub", sb), ("unsub", us), ("live", lv)] => lv == 0 && sb == us && sb == n
+      | _ => false
+    return ⟨m, ok, s!"rerun:n={min n 3}"⟩
   | _, _ => none
 
 end Sygma.Drv.C09
